@@ -1,6 +1,6 @@
 (** C16 — if the controlling process dies, the sandbox dies with it. *)
 From Coq Require Import List Arith.
-From GS Require Import Base.Lts Verdict.Status Tracer.VerdictProofs Container.Proto Container.ProtoProofs.
+From GS Require Import Base.Lts Verdict.Status Tracer.VerdictProofs Tracer.LaunchDeath Container.Proto Container.ProtoProofs.
 Import ListNotations.
 
 (** socket EOF: from EVERY reachable state of the RPC (idle, any point of any operation), once the
@@ -23,3 +23,23 @@ Theorem C16_resumed_implies_options_set : forall st pgid pid w so tr,
   (zmem pid (h_traced st) = false -> so = SoOk /\ In ReqSetOptions (o_reqs o)).
 Proof. exact resumed_implies_options_set. Qed.
 Print Assumptions C16_resumed_implies_options_set.
+
+(** the launch of a traced program (child || tracer || the kernel's rules for a tracee whose tracer dies),
+    the tracer being killed at ANY moment: the program's code never runs with the tracer dead, nothing is
+    left behind stopped, and a child that was cloned but has not yet asked for the parent-death signal
+    notices that its launcher is gone and exits *)
+Theorem C16_traced_launch_dies_with_tracer : forall s, lreach true s ->
+  (l_c s = LaunchDeath.CProgram -> l_t s <> LaunchDeath.TDead) /\
+  (l_t s = LaunchDeath.TDead -> l_c s = LaunchDeath.CDead \/ (l_c s = LaunchDeath.CInit /\ child_steps true s = [w_c s LaunchDeath.CDead])) /\
+  l_c s <> LaunchDeath.CParked.
+Proof. exact armed_supervised. Qed.
+Print Assumptions C16_traced_launch_dies_with_tracer.
+
+(** the sequence of the pinned tree (no parent-death signal; repaired in /repo): the same model exhibits the
+    program running unsupervised (tracer killed between its first wait4 and PTRACE_SETOPTIONS) and the
+    child left behind stopped (tracer killed before the first wait4) *)
+Theorem C16_without_pdeathsig_refuted :
+  (exists s, lreach false s /\ l_t s = LaunchDeath.TDead /\ l_c s = LaunchDeath.CProgram) /\
+  (exists s, lreach false s /\ l_t s = LaunchDeath.TDead /\ l_c s = LaunchDeath.CParked).
+Proof. exact unarmed_refuted. Qed.
+Print Assumptions C16_without_pdeathsig_refuted.
